@@ -75,3 +75,6 @@ def declare(reg):
         props=["C19"],
         ghost={"harness": "harness.frontend:Relay"},
     )
+    for pid in ("C08", "C06", "C19"):
+        reg.properties.setdefault(pid, {}).setdefault("bounded", []).append(
+            {"name": "proxy-loop-answers-every-command", "module": "harness.frontend", "func": "ProxyLoop"})
